@@ -16,6 +16,7 @@ import PlatypusModel.Model.Indicators
 import PlatypusModel.Model.LinAlg
 import PlatypusModel.Model.Codec
 import PlatypusModel.Model.Problems
+import PlatypusModel.Model.Directions
 import PlatypusModel.Model.WFG
 import PlatypusModel.Model.UF
 import PlatypusModel.Model.CF
@@ -502,8 +503,38 @@ partial def showPV : PV → String
   | .scalar b => s!"s{b}"
   | .list l => "[" ++ ",".intercalate (l.map showPV) ++ "]"
 
+def datomP : P DAtom := do
+  match (← tok) with
+  | "D" => do let b ← bool; pure (.dir b)
+  | "I" => do let i ← int; pure (.int i)
+  | "T" => do let cs ← chars; pure (.str cs)
+  | _ => throw "bad-op"
+
+def dargP : P DArg := do
+  match (← tok) with
+  | "A" => do let a ← datomP; pure (.atom a)
+  | "S" => do let l ← list datomP; pure (.seq l)
+  | _ => throw "bad-op"
+
+def showSlot : Slot → String
+  | .d b => if b then "d1" else "d0"
+  | .l bs => "l" ++ String.ofList (bs.map fun b => if b then '1' else '0')
+
 def opsProblems (op : String) : Option (P String) :=
   match op with
+  | "clipF" => some do
+      let v ← flt; let lo ← flt; let hi ← flt
+      pure ("c " ++ showFlt (pyClip v lo hi))
+  | "dirops" => some do
+      let n ← nat
+      let ops ← list (do
+        match (← tok) with
+        | "i" => do let i ← nat; let v ← dargP; pure (Sel.idx i, v)
+        | "s" => do let a ← nat; let b ← nat; let v ← dargP; pure (Sel.slice a b, v)
+        | _ => throw "bad-op")
+      pure (match dirRun (List.replicate n (Slot.d false)) ops with
+        | some d => "ok " ++ " ".intercalate (d.map showSlot)
+        | none => "err")
   | "fla" => some do
       let data ← list (pvP 4); let start ← nat; let stop ← nat; let v ← pvP 4
       pure ("a " ++ " ".intercalate ((sliceAssign data start stop v).map showPV))
